@@ -93,7 +93,10 @@ CHECKS["C16"] = dict(
           "20 steps); every (state, operation) is applied to REAL SymbolTable objects built in that state and "
           "the recorded (pre, op, outcome, result, post) tuples are validated by TLC against the property "
           "relation SymTab!Verdict (RefusalAtomic, UniqueNormalisedNames, TagsPointIntoScope, LookupInnermost, "
-          "FreshNameNoClash, MergeExactlyOnce); the model's own transitions satisfy the same relation."),
+          "FreshNameNoClash, MergeExactlyOnce); the model's own transitions satisfy the same relation. The state "
+          "includes Calls in the routine body and generic-interface membership (a referenced RoutineSymbol makes "
+          "remove/swap a refusal). Second binding (code to spec): a recorder over the repository's own tests, "
+          "validated with Trace_SymTab_Local.tla."),
     note=("Trusted: the projection of real tables to the abstract state (c16_world.py). Exhaustive for depth-1 "
           "histories from 2 rich initial states (quick), sampled beyond. Known defects in findings.d/C16.json."),
     technique="TLA+ state machine + TLC enumeration replayed on the real objects + TLC trace validation",
